@@ -17,6 +17,30 @@ Theorem C07_one_of_listed : forall b wvs wv, chosen_bucket b wvs = Some wv -> In
 Proof. exact chosen_bucket_in. Qed.
 Print Assumptions C07_one_of_listed.
 
+(* ... and there always is one: every context is served exactly one of the listed buckets, whatever the weights sum to;
+   when no threshold exceeds the bucket value it is the last listed one *)
+Theorem C07_exactly_one_bucket : forall b wvs, wvs <> [] -> exists wv, chosen_bucket b wvs = Some wv /\ In wv wvs.
+Proof. exact chosen_bucket_exists. Qed.
+Print Assumptions C07_exactly_one_bucket.
+Theorem C07_fallback_is_last_bucket : forall b wvs, scan b f32_zero wvs = None -> chosen_bucket b wvs = last_opt wvs.
+Proof. exact chosen_bucket_fallback. Qed.
+Print Assumptions C07_fallback_is_last_bucket.
+
+(* what the evaluator serves for a rollout or experiment is the variation of that bucket, for every bucket value; the only
+   rollout that serves no bucket is the empty one (MALFORMED_FLAG) *)
+Theorem C07_rollout_serves_chosen_bucket : forall o c vr key salt b fl,
+  vr_var vr = None -> ro_vars (vr_rollout vr) <> [] ->
+  compute_bucket (o_secondary o) c (is_experiment_rollout (vr_rollout vr)) (ro_seed (vr_rollout vr)) (ro_ctxkind (vr_rollout vr))
+                 key (ro_bucket_by (vr_rollout vr)) salt = Ok (b, fl) ->
+  exists wv inexp, chosen_bucket b (ro_vars (vr_rollout vr)) = Some wv /\
+                   vr_result o c vr key salt = Done (Ok (wv_var wv, inexp)).
+Proof. exact rollout_serves_chosen_bucket. Qed.
+Print Assumptions C07_rollout_serves_chosen_bucket.
+Theorem C07_empty_rollout_is_malformed : forall o c vr key salt,
+  vr_var vr = None -> ro_vars (vr_rollout vr) = [] -> vr_result o c vr key salt = Done (Err EEmptyRollout).
+Proof. exact empty_rollout_is_malformed. Qed.
+Print Assumptions C07_empty_rollout_is_malformed.
+
 Theorem C07_zero_weight_only_fallback : forall b sum wvs wv,
   f32_ltb b sum = false -> scan b sum wvs = Some wv -> wv_weight wv <> 0%Z.
 Proof. exact zero_weight_not_scanned. Qed.
